@@ -161,18 +161,30 @@ def valid_partitions(n: int, size: int, ok) -> int:
 _validated = False
 
 
-def validate_against_library():
-    """Raise RuntimeError (harness error) when this table's qubit or edge set differs from Surface17Layer's."""
-    global _validated
+_mismatch = None
+
+
+def table_mismatch():
+    """None when this table's qubit and edge sets equal Surface17Layer's public listing, else a description of the
+    difference (computed once per process)."""
+    global _validated, _mismatch
     if _validated:
-        return
+        return _mismatch
     from qce_circuit.connectivity.connectivity_surface_code import Surface17Layer
     layer = Surface17Layer()
     lib_qubits = sorted(q.id for q in layer.qubit_ids)
     lib_edges = sorted(edge(e.qubit_ids[0].id, e.qubit_ids[1].id) for e in layer.edge_ids)
     if lib_qubits != sorted(QUBITS) or len(lib_qubits) != 17:
-        raise RuntimeError(f"device table qubits {sorted(QUBITS)} differ from library listing {lib_qubits}")
-    if lib_edges != EDGES:
-        raise RuntimeError(f"device table edges differ from library listing: only in table "
-                           f"{sorted(set(EDGES) - set(lib_edges))}, only in library {sorted(set(lib_edges) - set(EDGES))}")
+        _mismatch = f"the library's Surface-17 layer lists qubits {lib_qubits}, the device has {sorted(QUBITS)}"
+    elif lib_edges != EDGES:
+        _mismatch = (f"the library's Surface-17 layer lists other edges than the device (plaquette geometry): missing in the library "
+                     f"{sorted(set(EDGES) - set(lib_edges))}, only in the library {sorted(set(lib_edges) - set(EDGES))}")
     _validated = True
+    return _mismatch
+
+
+def validate_against_library():
+    """Raise RuntimeError when the table differs from the library's listing (for callers that cannot report a violation)."""
+    msg = table_mismatch()
+    if msg:
+        raise RuntimeError(msg)
